@@ -317,6 +317,36 @@ Proof.
 Qed.
 Print Assumptions C02_session_later_calls_inert.
 
+(* Frames made from the Row objects of another frame - DataFrame(rows=list(frame), schema=cols), or
+   head / slice / query of a frame (also of one read from Arrow, whose rows carry a tuples-only class) -
+   show those rows under their OWN column list and, after any later history, map an appended dictionary
+   onto their own columns by name.  [s] is the state after any earlier history. *)
+Theorem C02_session_derived_frame_uses_own_columns :
+  forall (K V : Type) (eqK : forall a b : K, {a = b} + {a <> b}) (vnone : V)
+         (s : sstate K V) (f : nat) (b : bool) (fr : list K * list (list V))
+         (ops : list (sop K V)) (d : list (K * V)),
+  nth_error (s_frames s) f = Some (b, fr) ->
+  (forall cols : list K,
+     snd (sstep eqK vnone s (SReframe f cols)) = SOFrame cols (snd fr) /\
+     exists extra,
+       Forall (fun r => length r = length cols) extra /\
+       snd (sstep eqK vnone (fst (srun eqK vnone (fst (sstep eqK vnone s (SReframe f cols))) ops))
+                  (SAppend (length (s_frames s)) d)) =
+       SOFrame cols (snd fr ++ extra ++ [extract eqK vnone cols d])) /\
+  (forall n : nat,
+     snd (sstep eqK vnone s (SDerive f n)) = SOFrame (fst fr) (firstn n (snd fr)) /\
+     exists extra,
+       Forall (fun r => length r = length (fst fr)) extra /\
+       snd (sstep eqK vnone (fst (srun eqK vnone (fst (sstep eqK vnone s (SDerive f n))) ops))
+                  (SAppend (length (s_frames s)) d)) =
+       SOFrame (fst fr) (firstn n (snd fr) ++ extra ++ [extract eqK vnone (fst fr) d])).
+Proof.
+  intros K V eqK vnone s f b fr ops d H. split.
+  - intros cols. exact (session_reframe K V eqK vnone s f b fr cols ops d H).
+  - intros n. exact (session_derive K V eqK vnone s f b fr n ops d H).
+Qed.
+Print Assumptions C02_session_derived_frame_uses_own_columns.
+
 (* ---------- the object that delivers the dictionaries ----------
    DataFrame(obj) - modelled as the constructor's own protocol: one iter(), one next(), the same iterator to
    its end - reads exactly the dictionaries one pass over obj delivers at that moment, and leaves obj as a
@@ -454,3 +484,16 @@ Example C02_nonvacuous_producer :
     [PNew [(ex_a, 1); (ex_b, 2)]; PYield 0%nat; PDel 0%nat ex_b; PNew [(ex_b, 4)]; PYield 1%nat; PYield 0%nat] =
     ([ex_a; ex_b], [[1; 2]; [0; 4]; [1; 0]]).
 Proof. repeat split; reflexivity. Qed.
+
+(* derived frames: the rows of a frame built from dictionaries under new / permuted names, and head() of an
+   Arrow frame, each then given a dictionary in another key order *)
+Example C02_nonvacuous_derived :
+  snd (srun key_dec 0 s_init
+         [SFrame [[(ex_a, 1); (ex_b, 2)]; [(ex_b, 4); (ex_a, 3)]]; SReframe 0%nat [ex_b; ex_c];
+          SAppend 1%nat [(ex_c, 6); (ex_b, 5)];
+          SArrow [ex_a; ex_b] [[7; 8]; [9; 10]]; SDerive 2%nat 1%nat; SAppend 3%nat [(ex_b, 12); (ex_a, 11)]; SRows 0%nat]) =
+  [SOFrame [ex_a; ex_b] [[1; 2]; [3; 4]]; SOFrame [ex_b; ex_c] [[1; 2]; [3; 4]];
+   SOFrame [ex_b; ex_c] [[1; 2]; [3; 4]; [5; 6]];
+   SOFrame [ex_a; ex_b] [[7; 8]; [9; 10]]; SOFrame [ex_a; ex_b] [[7; 8]]; SOFrame [ex_a; ex_b] [[7; 8]; [11; 12]];
+   SOFrame [ex_a; ex_b] [[1; 2]; [3; 4]]].
+Proof. reflexivity. Qed.
